@@ -368,7 +368,7 @@ Definition run_decode (a : list N) : list N :=
       ++ flat_map item_obs items
     end in
   let driver := ds_driver s in
-  if driver =? 0 then
+  if (driver =? 0) || (driver =? 4) then
     let '(items, oc, st) := dec_run B3 (dec_new B3 root t stream q) in
     fin oc (blen B3 stream - blen B3 (d_enc B3 st)) 1
         (b2n ((tsize (dec_tree B3 st) =? tsize t) && (tbs (dec_tree B3 st) =? tbs t))) [] 0 items
@@ -468,7 +468,7 @@ Definition holds_decode (a o : list N) : bool :=
        let '(exp_items, exp_rc) :=
          if depart =? blen B3 hb then (hon, [0; 0]) else expect_items hon 0 depart (blen B3 stream) [] in
        let driver := ds_driver s in
-       if driver <=? 1 then
+       if (driver <=? 1) || (driver =? 4) then
          list_eqb [oc; p] exp_rc && (nitems =? N.of_nat (length exp_items)) &&
          list_eqb items (flat_map item_obs exp_items) &&
          (if oc =? 0 then consumed =? blen B3 hb else true)
@@ -727,7 +727,29 @@ Definition holds_bao (a o : list N) : bool :=
   match o with [_; _; ok; eq] => (ok =? 1) && (eq =? 1) | _ => false end.
 
 (* args [kind; seed; size; bs; from_kind; to_kind; driver] *)
+(* from_kind 5: a node-keyed source outboard with some pairs missing: every remaining pair must arrive.
+   (spec-level expectation: the map outboard is not one of the crate's outboards and has no transcription) *)
+Definition run_copy_map (a : list N) : list N :=
+  let data := blob a in
+  let bs := arg a 3 in
+  let full := intact PreIO data bs in
+  let t := ob_tree full in
+  let k2 := okind_of (arg a 5) in
+  let removed := skipn 7 a in
+  let nodes := filter (fun n => match load_sync B3 full n with Ok (Some _) => true | _ => false end) (pre_order_nodes_iter t) in
+  let to0 := mkOb3 k2 (ob_root full) t (match k2 with EmptyOb => [] | _ => zeros B3 (N.to_nat (outboard_size t)) end) in
+  let to := fold_left (fun acc (p : nat * N) =>
+                         let '(i, n) := p in
+                         if existsb (N.eqb (N.of_nat i)) removed then acc
+                         else match load_sync B3 full n with
+                              | Ok (Some (l, r)) => match save B3 acc n l r with Ok o => o | _ => acc end
+                              | _ => acc
+                              end)
+                      (combine (seq 0 (length nodes)) nodes) to0 in
+  [0; dg (ob_data to); loads_digest to; 0; 1].
+
 Definition run_copy (a : list N) : list N :=
+  if arg a 4 =? 5 then run_copy_map a else
   let data := blob a in
   let bs := arg a 3 in
   let from := intact (okind_of (arg a 4)) data bs in
@@ -745,6 +767,7 @@ Definition holds_copy (a o : list N) : bool :=
   let data := blob a in
   let bs := arg a 3 in
   let k2 := okind_of (arg a 5) in
+  if arg a 4 =? 5 then list_eqb o (run_copy_map a) else
   match o with
   | [rc; tod; tol; froml; ff] =>
       (rc =? 0) && (ff =? 1) &&
